@@ -19,7 +19,7 @@ theorem recover16 (res : UInt16) :
      UInt16.ofNat ((r.2.getD 1 0).toNat * 256 + (r.2.getD 2 0).toNat)) = res := by
   have hv := res.toNat_lt
   simp only [_cbor_encode_uint16]
-  have : ¬ ((3 : UInt64) < 3) := by decide
+  have : ¬ ((3 : UInt64) ≤ 2) := by decide
   simp only [this, decide_false, Bool.false_eq_true, if_false]
   apply UInt16.toNat_inj.mp
   simp [C.toU8]
